@@ -19,6 +19,9 @@ pub enum Mutation {
     Delete(usize),
     Insert(usize, u8),
     DuplicateLine(usize),
+    /// line `i` (or, when the flag is set, the two lines `i`, `i+1`) repeated `n` more times in place:
+    /// long runs of one terminator / header / row / blank line
+    RepeatLines(usize, u16, bool),
     RemoveLine(usize),
     SwapLines(usize),
     /// drop the last whitespace-separated token of a line (ragged matrix)
@@ -110,6 +113,29 @@ fn apply(mut b: Vec<u8>, m: &Mutation) -> Vec<u8> {
         }
         Mutation::Arbitrary(v) => v.clone(),
         Mutation::Empty => Vec::new(),
+        Mutation::RepeatLines(i, times, two) => {
+            let mut ls = lines_of(&b);
+            if ls.is_empty() {
+                return b;
+            }
+            let i = i % ls.len();
+            let mut unit = ls[i].clone();
+            if !unit.ends_with(b"\n") {
+                unit.push(b'\n');
+            }
+            if *two && i + 1 < ls.len() {
+                unit.extend_from_slice(&ls[i + 1]);
+                if !unit.ends_with(b"\n") {
+                    unit.push(b'\n');
+                }
+            }
+            let mut run = Vec::with_capacity(unit.len() * *times as usize);
+            for _ in 0..*times {
+                run.extend_from_slice(&unit);
+            }
+            ls.insert(i, run);
+            ls.concat()
+        }
         Mutation::InsertLine(i, text) => {
             let mut ls = lines_of(&b);
             let i = i % (ls.len() + 1);
@@ -186,6 +212,7 @@ pub fn mutation_strategy() -> BoxedStrategy<Mutation> {
         2 => (any::<usize>(), any::<u8>()).prop_map(|(i, v)| Mutation::Insert(i, v)),
         2 => (any::<usize>(), proptest::sample::select(vec![b'\n', b'>', b'[', b']', b' ', b'\t', b'/'])).prop_map(|(i, v)| Mutation::Insert(i, v)),
         2 => any::<usize>().prop_map(Mutation::DuplicateLine),
+        1 => (any::<usize>(), prop_oneof![4 => 2u16..=60, 1 => 1000u16..=30000], any::<bool>()).prop_map(|(i, n, two)| Mutation::RepeatLines(i, n, two)),
         3 => any::<usize>().prop_map(Mutation::RemoveLine),
         2 => any::<usize>().prop_map(Mutation::SwapLines),
         3 => any::<usize>().prop_map(Mutation::RaggedLine),
@@ -225,7 +252,7 @@ impl Sub for Structured {
         "structured-mutations"
     }
     fn rule(&self) -> &'static str {
-        "a valid generated file (C14's writers, 1..6 records) or one of the repository's small test files, with 1..3 mutations (prefix, byte substitution / deletion / insertion, line duplication / removal / swap, ragged or longer row, header without matrix, an inserted line (any two-letter field code, or a header / terminator / matrix-like line of one of the formats in an odd place), missing final newline, invalid UTF-8, arbitrary bytes, empty), read by the reader of its own format (or, 1 in 5, another format's) under 2 generated chunkings; Reader::new and every next() must return (a panic fails; so does a call that burns 10 CPU seconds without returning) and a consumer stopping at the first Err / None must stop within len+2 calls; sweep = EVERY prefix of the repository's 8 small files and of a generated file per format, under chunk size 1 and a cursor; non-trivial = non-empty input on which the reader does not simply succeed as on the unmutated file"
+        "a valid generated file (C14's writers, 1..6 records) or one of the repository's small test files, with 1..3 mutations (prefix, byte substitution / deletion / insertion, line duplication / removal / swap, one or two lines repeated 2..60 or 1000..30000 times, ragged or longer row, header without matrix, an inserted line (any two-letter field code, or a header / terminator / matrix-like line of one of the formats in an odd place), missing final newline, invalid UTF-8, arbitrary bytes, empty), read by the reader of its own format (or, 1 in 5, another format's) under 2 generated chunkings; Reader::new and every next() must return (a panic fails; so does a call that burns 10 CPU seconds without returning) and a consumer stopping at the first Err / None must stop within len+2 calls; sweep = EVERY prefix of the repository's 8 small files and of a generated file per format, under chunk size 1 and a cursor; non-trivial = non-empty input on which the reader does not simply succeed as on the unmutated file"
     }
     fn cases(&self, tier: Tier) -> u64 {
         tier.pick(100_000, 3_000_000)
@@ -299,6 +326,13 @@ impl Sub for Structured {
                 Mutation::Delete(_) => "mut:delete",
                 Mutation::Insert(..) => "mut:insert",
                 Mutation::DuplicateLine(_) => "mut:dup-line",
+                Mutation::RepeatLines(_, n, _) => {
+                    if *n >= 1000 {
+                        "mut:line-repeated>=1000x"
+                    } else {
+                        "mut:line-repeated"
+                    }
+                }
                 Mutation::RemoveLine(_) => "mut:remove-line",
                 Mutation::SwapLines(_) => "mut:swap-lines",
                 Mutation::RaggedLine(_) => "mut:ragged-row",
@@ -355,6 +389,7 @@ pub fn property() -> Property {
         id: "C15",
         subs: vec![Box::new(Structured)],
         assumptions: vec![
+            "the whole run happens in a child process (main.rs ISOLATED): a fatal signal - e.g. the stack overflow of an unbounded recursion on a long run of lines - kills the child only; the parent then replays the cases the shards were working on, one per child process, and reports the one that dies again (signature process-died:stack-overflow / signal-N)",
             "a panic anywhere in Reader::new or Iterator::next is a failure; a call that never returns is recognised by the CPU time its thread consumes (10 CPU seconds on an input of a few KB, whose normal cost is microseconds; 3 s once one such event was seen, so that shrinking stays affordable) - CPU time of that thread, not wall-clock time, so machine load cannot cause it; a call blocked without consuming CPU ends in the global watchdog (exit 2, inconclusive)",
             "termination is that of a consumer which stops at the first Err or None: at most len+2 calls",
             "this is the structured half of C15; the byte-level half is the libFuzzer target fuzz/fuzz_targets/c15_readers.rs",
